@@ -130,8 +130,8 @@ impl Prop for C18 {
 
 fn shapes(tier: Tier) -> Vec<(u16, u16)> {
     match tier {
-        Tier::Quick => vec![(2, 2), (3, 2), (4, 3)],
-        Tier::Thorough => vec![(2, 2), (3, 2), (3, 3), (4, 2), (4, 3), (5, 3)],
+        Tier::Quick => vec![(2, 2), (3, 2), (3, 3), (4, 2), (4, 3)],
+        Tier::Thorough => vec![(2, 2), (3, 2), (3, 3), (4, 2), (4, 3), (5, 3), (5, 5), (6, 4)],
     }
 }
 
